@@ -423,6 +423,9 @@ def c04(rec):
     if k not in ("buyStorage", "postFile"):
         return []
     out = unchanged_if_failed(rec, "C04")
+    if v.get("jklPriceExpected") is not None and v.get("jklPrice") != v.get("jklPriceExpected"):
+        # "the price the chain computes": the JKL quote it prices with must be the one the price feed carries
+        out.append(V("C04", "price-feed-misread", f"{k}: the chain prices with {v.get('jklPrice')}e-18 USD/JKL, the price feed says {v.get('jklPriceExpected')}e-18", op=k))
     if not rec["ok"]:
         return out
     pre, post = rec["pre"], rec["post"]
